@@ -252,6 +252,183 @@ pub(super) fn complex_borrow_check(
     }
 }
 
+/// The traversal in [`complex_borrow_check`] releases the borrows held by a node as soon as the node
+/// has been visited, even if the node itself must wait for one of its dependencies.
+/// That's not enough when the "borrowers first, consumer last" constraints chain through dependencies:
+///
+/// ```text
+///  V1        V2
+///  | \&    &/ |
+///  |   \  /   |
+///  C1   \/    C2
+///  |    /\    |
+///  |  /    \  |
+///  B2        B1
+///   \       /
+///    handler
+/// ```
+///
+/// `B1` borrows `V1` and must therefore run before `C1`, which consumes `V1`; `B2` needs the output
+/// of `C1`; `B2` borrows `V2` and must therefore run before `C2`, which consumes `V2`; `B1` needs the
+/// output of `C2`. There is no way to order the nodes.
+///
+/// This pass plays the node-ordering algorithm forward (a node can be scheduled when all its
+/// dependencies have been scheduled and none of the values it consumes is still borrowed by a node
+/// that has yet to be scheduled). If it gets stuck, it resolves the stalemate by cloning one of the
+/// contended values, if allowed, or by reporting an error.
+pub(super) fn ordering_stalemates(
+    call_graph: CallGraph,
+    copy_checker: &CopyChecker,
+    component_db: &mut ComponentDb,
+    computation_db: &mut ComputationDb,
+    krate_collection: &CrateCollection,
+    diagnostics: &crate::diagnostic::DiagnosticSink,
+) -> CallGraph {
+    let CallGraph {
+        mut call_graph,
+        root_node_index,
+        root_scope_id,
+        root_component_id,
+    } = call_graph;
+
+    // The stalemates we have already reported an error for.
+    let mut reported = IndexSet::new();
+    'resolution: loop {
+        let stalemates = find_ordering_stalemates(
+            &call_graph,
+            &reported,
+            copy_checker,
+            component_db,
+            computation_db,
+        );
+        if stalemates.is_empty() {
+            break 'resolution;
+        }
+
+        // Cloning a single contended value may be enough to get things moving again:
+        // we clone for the first stuck node that allows it and then check again.
+        for (node_index, blocked_ids) in &stalemates {
+            for &blocked_id in blocked_ids {
+                let Some(component_id) = call_graph[blocked_id].component_id() else {
+                    continue;
+                };
+                let Some(clone_component_id) = get_clone_component_id(
+                    &component_id,
+                    krate_collection,
+                    component_db,
+                    computation_db,
+                    root_scope_id,
+                ) else {
+                    continue;
+                };
+                let clone_node_id = call_graph.add_node(CallGraphNode::Compute {
+                    component_id: clone_component_id,
+                    n_allowed_invocations: NumberOfAllowedInvocations::One,
+                });
+                call_graph.update_edge(
+                    blocked_id,
+                    clone_node_id,
+                    CallGraphEdgeMetadata::SharedBorrow,
+                );
+                call_graph.update_edge(clone_node_id, *node_index, CallGraphEdgeMetadata::Move);
+                if let Some(edge) = call_graph.find_edge(blocked_id, *node_index) {
+                    call_graph.remove_edge(edge);
+                }
+                continue 'resolution;
+            }
+        }
+
+        // None of the stuck nodes can be unblocked by cloning: report the first one and
+        // look for further stalemates that don't depend on it.
+        let (node_index, blocked_ids) = stalemates.into_iter().next().unwrap();
+        emit_borrow_checking_error(
+            blocked_ids,
+            computation_db,
+            component_db,
+            &call_graph,
+            diagnostics,
+        );
+        reported.insert(node_index);
+    }
+
+    CallGraph {
+        call_graph,
+        root_node_index,
+        root_scope_id,
+        root_component_id,
+    }
+}
+
+/// Play the node-ordering algorithm forward, visiting nodes by increasing index until no more
+/// progress can be made.
+/// If some nodes can't be scheduled, return the nodes whose dependencies have all been
+/// scheduled, each together with the dependencies that it wants to consume by value while they
+/// are still borrowed by a node that has yet to be scheduled.
+///
+/// The nodes in `ignore` are scheduled as soon as their dependencies have been scheduled.
+fn find_ordering_stalemates(
+    call_graph: &RawCallGraph,
+    ignore: &IndexSet<NodeIndex>,
+    copy_checker: &CopyChecker,
+    component_db: &ComponentDb,
+    computation_db: &ComputationDb,
+) -> Vec<(NodeIndex, IndexSet<NodeIndex>)> {
+    let node2captured_nodes = captured_nodes(call_graph, component_db, computation_db);
+    let mut ownership_relationships =
+        OwnershipRelationships::compute(call_graph, &node2captured_nodes);
+    let mut scheduled: IndexSet<NodeIndex> = IndexSet::new();
+    loop {
+        let mut progressed = false;
+        let mut stalemates = Vec::new();
+        for node_index in call_graph.node_indices() {
+            if scheduled.contains(&node_index) {
+                continue;
+            }
+            let mut dependencies: Vec<_> = call_graph
+                .neighbors_directed(node_index, Direction::Incoming)
+                .collect();
+            dependencies.sort();
+            dependencies.dedup();
+            if dependencies.iter().any(|d| !scheduled.contains(d)) {
+                continue;
+            }
+            let blocked_ids: IndexSet<NodeIndex> = if ignore.contains(&node_index) {
+                IndexSet::new()
+            } else {
+                dependencies
+                    .into_iter()
+                    .filter(|&dependency_index| {
+                        let node_relationships = ownership_relationships.node(dependency_index);
+                        node_relationships.is_consumed_by(node_index)
+                            && node_relationships.is_borrowed()
+                            // You can't have a "used after moved" error for a Copy type.
+                            && !copy_checker.is_copy(
+                                call_graph,
+                                dependency_index,
+                                component_db,
+                                computation_db,
+                            )
+                    })
+                    .collect()
+            };
+            if blocked_ids.is_empty() {
+                ownership_relationships
+                    .node(node_index)
+                    .remove_all_borrows();
+                scheduled.insert(node_index);
+                progressed = true;
+            } else {
+                stalemates.push((node_index, blocked_ids));
+            }
+        }
+        if !progressed {
+            // Nothing was scheduled in this round, therefore the stalemates we found (if any)
+            // were evaluated against the final state.
+            return stalemates;
+        }
+    }
+}
+
 /// Emit an error diagnostic to the user explaining why the borrow checker is going to be unhappy
 /// and what they can do to fix it.
 fn emit_borrow_checking_error(
